@@ -83,12 +83,14 @@ class KindInfer(object):
 
     # ------------------------------------------------------------------
     def _functions(self):
+        # helpers that the equivalence step inlined into all their callers are not read a second time
         for n in self.mod.tree.body:
             if isinstance(n, ast.FunctionDef):
-                yield None, n
+                if not self.repo.absorbed('%s:%s' % (self.modname, n.name)):
+                    yield None, n
             elif isinstance(n, ast.ClassDef):
                 for m in n.body:
-                    if isinstance(m, ast.FunctionDef):
+                    if isinstance(m, ast.FunctionDef) and not self.repo.absorbed('%s:%s.%s' % (self.modname, n.name, m.name)):
                         yield n, m
 
     def _class_family(self, cls):
